@@ -328,6 +328,41 @@ def corpus(ctx, work):
         if r.rc != 0 or r.timed_out:
             ctx.violation("stub header accepted by g++ is rejected by parse_file: %s" % os.path.relpath(h, REPO),
                           dict(header=h, stderr=r.stderr[-800:], stat_key="corpus"))
+    return n + syntax_probes(ctx, work)
+
+
+# small valid translation units in shapes met while working on other properties ("every translation unit in the supported
+# subset ... parses with zero errors"); g++ must accept each (else exit 2); (id, text, finding class or None = must parse)
+SYNTAX_PROBES = [
+    ("trailing-return-virt-specifier", "struct A { virtual void f(); };\nstruct B : A { auto f() -> void override; };\n",
+     "C06-trailing-return-virt-specifier"),
+    ("trailing-return-plain", "struct A { virtual void f(); virtual int g() const; };\n"
+                              "struct B : A { auto f() -> void; auto g() const -> int; };\nauto h(int x) -> int;\n", None),
+    ("mem-initializer-nested-braces", "struct G { G() : g{{1, 2}, {3, 4}} {} const int g[2][2]; };\n", "C06-mem-initializer-nested-braces"),
+    ("mem-initializer-braces", "struct G { G() : a{1, 2}, b{3} {} const int a[2]; int b; };\n", None),
+    ("directive-after-comment", "/* c */ #define Q 1\n/* a\n b */ #define R 2\nint q = Q + R;\n", None),
+    ("cpp-comment-splice", "// c \\\nthis line is a comment;\nint shown;\n", None),
+    ("multi-character-literal", "enum E { e = 'ab', f = 'a' };\n", None),
+    ("const-array-members", "struct S { S(); const int tab[3]; const char name[8]; int ok[2]; };\n", None),
+    ("typedef-of-simple-types", "typedef int PInt; typedef const int CInt;\nstruct T { T(); PInt a; CInt b; int f(PInt x, CInt y) const; };\n", None),
+]
+
+
+def syntax_probes(ctx, work):
+    d = os.path.join(work, "syntax")
+    os.makedirs(d, exist_ok=True)
+    n = 0
+    for pid, text, fid in SYNTAX_PROBES:
+        fn = os.path.join(d, pid.replace("-", "_") + ".h")
+        open(fn, "w").write(text)
+        g = subprocess.run(["g++", "-std=c++17", "-fsyntax-only", "-w", "-x", "c++", fn], stdout=subprocess.PIPE, stderr=subprocess.PIPE, text=True)
+        if g.returncode != 0:
+            raise MachineryError("syntax probe %s is not valid C++:\n%s" % (pid, g.stderr[-600:]))
+        r = run.run_tool("parse_file", [fn], cwd=d, timeout=60)
+        n += 1
+        if r.rc != 0 or r.timed_out:
+            ctx.violation("syntax probe %s, accepted by g++, is rejected by parse_file: %s" % (pid, (r.stderr.strip().split("\n") or [""])[0][:200]),
+                          dict(probe=pid, text=text, stderr=r.stderr[-800:], stat_key="syntax"), classes=[fid] if fid else [])
     return n
 
 
